@@ -794,6 +794,8 @@ def role_tokens(repo, col, prop):
             for tt, vt, nd, what in pairs:
                 if not any(a in tt or b in tt for a, b in ROLE_PAIRS):
                     continue
+                if tt & {"major", "minor", "order", "ordered", "sorted", "by", "first", "per"}:
+                    continue   # `sampled_pre_major`, `sorted_by_post`: the name describes an ORDERING by that role, not a quantity of that role
                 n += 1
                 c_ = crossed(tt, vt)
                 why = ROLE_CROSS_OK.get((fi.name, what)) if c_ else None
